@@ -2,51 +2,23 @@ package main
 
 import (
 	"fmt"
-	"os"
+	"math/rand"
 	"testing"
-	"time"
 
 	"github.com/lindb/lindb/verif/internal/node"
 )
 
-func TestProbeTagAfterFlush(t *testing.T) {
-	dir, _ := os.MkdirTemp("", "c11probe")
-	defer os.RemoveAll(dir)
-	n, err := node.Open(node.Options{Dir: dir})
-	if err != nil {
-		t.Fatal(err)
+func TestDumpWrites(t *testing.T) {
+	idx, seed := 19, int64(2)
+	rnd := rand.New(rand.NewSource(seed*7919 + int64(idx)*104729 + 17))
+	sc := genSchema(rnd, idx%3 != 2)
+	nb := 14 + rnd.Intn(22)
+	writes, _ := genWrites(rnd, sc, nb)
+	fmt.Println("shards", sc.Shards)
+	for i, w := range writes[:9] {
+		for j, p := range w.Points {
+			sh, _ := node.ShardOf(p, sc.Shards)
+			fmt.Println("P", i, j, p.Metric, p.Tags, "shard", sh, "hour", (p.Timestamp-sc.Base)/hourMs, (p.Timestamp-sc.Base)/slotMs, p.Fields, p.Histogram != nil)
+		}
 	}
-	defer n.Close()
-	now := time.Now().UnixMilli()
-	t0 := now - now%3600_000 - 2*3600_000
-	c := node.NewCluster(n, node.Layout{})
-	w := func(host, dc string, ts int64) {
-		n.Write([]node.Point{{Metric: "m", Tags: map[string]string{"host": host, "dc": dc}, Timestamp: ts, Fields: []node.Field{{Name: "f", Type: node.Sum, Value: 1}}}})
-	}
-	q := func(cond string) {
-		sql := fmt.Sprintf("select f from 'm' where %s and time >= '%s' and time <= '%s' group by host,dc", cond, node.FormatTime(t0), node.FormatTime(t0+3600_000-1000))
-		res := c.Query(sql)
-		fmt.Println(cond, "->", res.Err, node.Canonical(res.ResultSet, []string{"host", "dc"}))
-	}
-	w("h1", "east", t0+10_000)
-	q("dc = 'east'")
-	switch os.Getenv("MODE") {
-	case "flushall":
-		n.FlushAll()
-	case "meta":
-		n.FlushMeta()
-	case "index":
-		n.FlushIndex()
-	case "metaindex":
-		n.FlushMeta()
-		n.FlushIndex()
-	}
-	w("h2", "west", t0+20_000)
-	q("dc = 'west'")
-	q("dc = 'east'")
-	q("host = 'h2'")
-	w("h3", "west", t0+30_000)
-	q("dc = 'west'")
-	n.FlushAll()
-	q("dc = 'west'")
 }
